@@ -92,7 +92,7 @@ fn family_cells(rows: usize, cols: usize, f: usize) -> Vec<(usize, usize)> {
 fn main() {
     let ctx = Ctx::from_args("C07");
     ctx.level("model_checking");
-    ctx.rule("E1: every sparsity pattern for all shapes with r*c <= 12 (quick) / r*c <= 20 (thorough), two triplet orders, against the dense products over exact rationals with EVERY unit vector plus all-ones, alternating, powers of two and fractional vectors: multiply, transpose_multiply, transpose().multiply, <y,Ax>=<A^T y,x>, scale; shapes up to 10x10 through 11 pattern families. E2: the same oracles on every state of the BFS over insert/overwrite/scale/transpose histories (storage orders that from_triplets alone does not produce). Non-trivial: empty rows/columns, empty matrix, rectangular shapes, unsorted storage.");
+    ctx.rule("E1: every sparsity pattern for all shapes with r*c <= 12 (quick) / r*c <= 20 (thorough), two triplet orders, against the dense products over exact rationals with EVERY unit vector plus all-ones, alternating, powers of two and fractional vectors: multiply, transpose_multiply, transpose().multiply, <y,Ax>=<A^T y,x>, scale; shapes up to 10x10 and nine larger ones (up to 64 rows/columns) through 11 pattern families. E2: the same oracles on every state of the BFS over insert/overwrite/scale/transpose histories (storage orders that from_triplets alone does not produce). Non-trivial: empty rows/columns, empty matrix, rectangular shapes, unsorted storage.");
     ctx.require(&["pattern with an empty column", "pattern with an empty row", "empty matrix", "rectangular", "state with unsorted rows inside a column", "large shape", "typed sparse case (f64, Complex<f64>)"]);
     let lim = ctx.pick(12, 20);
     for r in 0..=5usize {
@@ -112,8 +112,14 @@ fn main() {
             }
         }
     }
+    // shapes well beyond 10x10: block / unrolling boundaries of the column loops
+    for (r, c) in [(17usize, 20usize), (20, 17), (33, 16), (16, 33), (40, 5), (5, 40), (25, 25), (64, 3), (3, 64)] {
+        for f in 1..11 {
+            cases.push((r, c, f));
+        }
+    }
     ctx.lattice(
-        "products, shapes up to 10x10 through 11 structured pattern families",
+        "products, shapes up to 10x10 and nine shapes up to 64 rows/columns through 11 structured pattern families",
         cases.len() as u64,
         |i| format!("{:?}", cases[i as usize]),
         |i, acc| {
